@@ -163,7 +163,7 @@ def rec_latex(text):
     return _latex_product(text, "num"), facts
 
 
-_SI = re.compile(r"\\(per)(?![A-Za-z_])|\\(squared|cubed)(?![A-Za-z_])|\\tothe\{(.*?)\}|\\([A-Za-z_]+)")
+_SI = re.compile(r"\\(per)(?![A-Za-z_])|\\(squared|cubed)(?![A-Za-z_])|\\tothe\{(.*?)\}|\\([A-Za-z_]+|%)")
 
 
 def rec_siunitx(text, prefixes):
@@ -191,6 +191,8 @@ def rec_siunitx(text, prefixes):
             terms[-1] = (terms[-1][0], terms[-1][1], m.group(3))
         else:
             w = m.group(4)
+            if w == "%":
+                w = "percent"  # the short siunitx form writes \\% for \\percent
             if w in prefixes and cur != "prefix":
                 pre = w
                 cur = "prefix"
